@@ -150,6 +150,9 @@ func (e *Exec) RunFunction(fn *ssa.Function) (err error) {
 		if err := e.confineDone(fn, c); err != nil {
 			return err
 		}
+		if err := e.afterLoops(fn, c); err != nil {
+			return err
+		}
 		for _, ns := range c.NoStores {
 			if !e.noStoreHit[ns] {
 				// no store to the field on any explored path: discharged structurally
@@ -579,8 +582,38 @@ func (e *Exec) loopHeader(fr *Frame, h *ssa.BasicBlock, st *State, fwd []edge, b
 	}
 	li.hv = hv
 	if c != nil {
-		for _, k := range c.FullLoops {
+		for _, k0 := range c.FullLoops {
+			k, nth := k0, 0
+			if i := strings.LastIndex(k0, "#"); i >= 0 {
+				if _, err := fmt.Sscan(k0[i+1:], &nth); err == nil {
+					k = k0[:i]
+				} else {
+					nth = 0
+				}
+			}
 			if strings.Contains(li.key, k) || strings.Contains(loopKeyNamed(h), k) {
+				if nth != 0 {
+					// the n-th loop with this key, in block order of the function
+					rank := 0
+					for _, b := range fr.fn.Blocks {
+						isHead := false
+						for _, p := range b.Preds {
+							if b.Dominates(p) {
+								isHead = true
+							}
+						}
+						if isHead && (strings.Contains(loopKey(b), k) || strings.Contains(loopKeyNamed(b), k)) {
+							rank++
+							if b == h {
+								break
+							}
+						}
+					}
+					if rank != nth {
+						continue
+					}
+				}
+				k = k0
 				li.noBreak = true
 				e.usedLoopKeys["full:"+k] = true
 				// with no early exit in the code the obligation is discharged structurally
